@@ -165,11 +165,23 @@ def p_minus(K, prop, fid, allowed, audit, tag=""):
     rs = K.P.reach_sites(root)
     out = []
     audited = 0
+    guarded = 0
+    live = _live_panic_classes(K, root)
     for (cls, site_fid), (site, chain) in sorted(rs.items()):
         if not panics.is_contract_class(cls) or cls in allowed:
             continue
+        if live is not None and cls not in live:
+            # call-graph reachable, but every path to a site of this class is cut by a guard already decided on the
+            # path (the fully inlined decision tree has no such leaf and no terminal that can raise it)
+            guarded += 1
+            continue
         ent = audit.lookup(fid, cls, site_fid)
         if ent is not None:
+            audited += 1
+            continue
+        if _dominated_by_audited(K, root, cls, site_fid, fid, audit):
+            # every call path from the root to this site runs through a function whose panics of this class are audited
+            # for this root (the audited argument is about that call, whatever the callee does below it)
             audited += 1
             continue
         key = "%s:P-:%s:%s:%s@%s" % (prop, K.config, fid, cls, site_fid)
@@ -180,15 +192,93 @@ def p_minus(K, prop, fid, allowed, audit, tag=""):
         key = "%s:P-:%s:%s%s" % (prop, K.config, fid, (":" + tag) if tag else "")
         res, order = K.P.reach(root)
         out.append(Ob(key, prop, "P-", K.config, fid, PROVED,
-                      "no unaudited API-contract panic class reachable (%d audited pairs, %d instances explored)" % (audited, len(order)),
-                      loc, dict(instances_explored=len(order), audited=audited)))
+                      "no unaudited API-contract panic class reachable (%d audited pairs, %d guard-protected, %d instances explored)" % (audited, guarded, len(order)),
+                      loc, dict(instances_explored=len(order), audited=audited, guard_protected=guarded)))
     return out
+
+
+def _dominated_by_audited(K, root, cls, site_fid, root_fid, audit):
+    F = K.F
+    ents = audit.entries_for(root_fid, cls)
+    if not ents:
+        return False
+    for i, site_re, e in ents:
+        # remove every instance whose function matches the audited site; is the panic site still reachable?
+        seen = {root}
+        stack = [root]
+        hit = False
+        if site_re.search(F.fid(F.instances[root]["d"])):
+            continue
+        while stack and not hit:
+            n = stack.pop()
+            for _bb, t in K.P.succ_instances(n):
+                if t in seen:
+                    continue
+                seen.add(t)
+                f = F.fid(F.instances[t]["d"])
+                if site_re.search(f):
+                    continue            # cut here
+                if f == site_fid:
+                    hit = True
+                    break
+                stack.append(t)
+        if not hit:
+            audit.used.add(i)
+            return True
+    return False
+
+
+def _live_panic_classes(K, root):
+    """Panic classes that survive guard pruning: classes of PANIC leaves of the fully inlined decision tree of `root`
+    plus everything call-graph reachable from the terminals (loop functions, externals) left in it.  None when the tree
+    is not completely summarised (loop in the root itself, give-up): the caller then keeps the call-graph answer."""
+    S = K.S
+    tree = S.summary(root)
+    if tree is None:
+        return None
+    live = set()
+    labels = set()
+    ok = [True]
+
+    def term(t):
+        if isinstance(t, tuple):
+            if t and t[0] == "C" and isinstance(t[1], str):
+                labels.add(t[1])
+            for x in t:
+                term(x)
+
+    def walk(t):
+        if not ok[0]:
+            return
+        k = t[0]
+        if k == "IF":
+            term(t[1])
+            for _v, sub in t[2]:
+                walk(sub)
+            walk(t[3])
+        elif k == "RET":
+            term(t[1])
+            term(t[2])
+        elif k == "PANIC":
+            live.add(t[1])
+        else:
+            ok[0] = False
+    walk(tree)
+    if not ok[0]:
+        return None
+    for lab in labels:
+        insts = S.term_inst.get(lab)
+        if not insts:
+            return None         # indirect / unresolved / renamed terminal: no pruning
+        for i in insts:
+            live |= K.P.classes(i, contract_only=False)
+    return live
 
 
 # ---------------------------------------------------------------- G rows
 from . import guards  # noqa: E402
 
-WORLDS = (2, 3)     # digit counts the representatives are evaluated at (3: widths that are not powers of two)
+WORLDS = (1, 2, 3)     # digit counts the representatives are evaluated at (3: widths that are not powers of two)
 WORLDS_FOR = None   # optional override: function(fid) -> tuple of digit counts (C16: equal widths across digit types)
 
 
@@ -239,6 +329,10 @@ def _match(exp, out, env, W):
             if out[1].startswith("other(") or out[1] == "dynamic" or out[1].startswith("diverges:"):
                 return None
             return False
+        # a normal return: decisive only when the value was completely evaluated - an unmodelled callee inside an opaque
+        # part may itself be where the panic is raised
+        if out[0] == "ret" and _has_opaque(out[1]):
+            return None
         return False
     if out[0] == "panic":
         return False
@@ -334,6 +428,14 @@ def _match(exp, out, env, W):
     raise ValueError(exp)
 
 
+def _has_opaque(v):
+    if v is guards.OPAQUE:
+        return True
+    if isinstance(v, tuple):
+        return any(_has_opaque(x) for x in v)
+    return False
+
+
 def _ret_call_verdict(exp, labels):
     """wanted terminal reached -> True; a terminal from the explicit wrong list reached -> False; any other shape is
     undecidable (a refactor may route through a new helper: that must never be an alarm)"""
@@ -377,7 +479,10 @@ def g_row(K, prop, fid, reps, tag="", inst=None, cparams=None):
             W.K = K
             env = env_fn(W)
             exp = exp_fn(W, env)
-            o, path = guards.outcome(tree, env, W)
+            try:
+                o, path = guards.outcome(tree, env, W)
+            except RecursionError:
+                o, path = ("unknown", "evaluation too deep"), []
             r = _match(exp, o, env, W)
             pth = " ; ".join("%s=%s" % (nf.show_term(s_), v) for s_, v in path)
             if isinstance(n, tuple):
@@ -414,3 +519,45 @@ def _show_out(o):
 
 def _show_exp(e):
     return repr(e)
+
+
+# ---------------------------------------------------------------- robustness: an internal error decides nothing
+INTERNAL_ERRORS = []
+
+
+def _guard(fn, family, many):
+    import functools
+    import traceback
+
+    @functools.wraps(fn)
+    def wrapper(K, prop, fid, *a, **kw):
+        try:
+            return fn(K, prop, fid, *a, **kw)
+        except (KeyboardInterrupt, MemoryError):
+            raise
+        except missing_anchor_types:
+            raise
+        except Exception as e:      # unexpected program shape: report as undecided, never as a crash or an alarm
+            INTERNAL_ERRORS.append("%s %s: %s" % (family, fid, traceback.format_exc(limit=4)))
+            ob = Ob("%s:%s:%s:%s:internal" % (prop, family, K.config, fid), prop, family, K.config, fid, UNDECIDED,
+                    "internal analysis error (%s: %s); nothing decided for this row" % (type(e).__name__, str(e)[:200]))
+            if family == "G":
+                reps = a[0] if a else kw.get("reps", [])
+                # keep the enumerated obligation count independent of the failure
+                return [Ob("%s:G:%s:%s:%s" % (prop, K.config, fid, r[0]), prop, "G", K.config, fid, UNDECIDED, ob.detail) for r in reps] or [ob]
+            return [ob] if many else ob
+    return wrapper
+
+
+missing_anchor_types = ()
+try:
+    from .spec import MissingAnchor as _MA
+    missing_anchor_types = (_MA,)
+except Exception:
+    pass
+
+f_row = _guard(f_row, "F", False)
+p_plus = _guard(p_plus, "P+", False)
+p_minus = _guard(p_minus, "P-", True)
+g_row = _guard(g_row, "G", True)
+t_row = _guard(t_row, "T", False)
